@@ -74,6 +74,43 @@ pub fn phases_of(log: &[Event]) -> Vec<Vec<u64>> {
     out.into_iter().filter(|p| !p.is_empty()).collect()
 }
 
+/// For every task started in a scripted run: the stack of (join id, branch) it started under.
+pub fn task_paths(log: &[Event]) -> Vec<(u64, Vec<(usize, u8)>)> {
+    let mut stack: Vec<(usize, u8)> = Vec::new();
+    let mut out = Vec::new();
+    for e in log {
+        match e {
+            Event::Fork(id, second_first) => stack.push((*id, if *second_first { 1 } else { 0 })),
+            Event::Mid(id) => {
+                if let Some(top) = stack.last_mut() {
+                    if top.0 == *id {
+                        top.1 = 1 - top.1;
+                    }
+                }
+            }
+            Event::Join(_) => {
+                stack.pop();
+            }
+            Event::User(t) => {
+                if *t < 1000 {
+                    out.push((*t, stack.clone()));
+                }
+            }
+        }
+    }
+    out
+}
+
+/// Are two tasks unordered by the fork/join structure (they sit in different branches of one join)?
+pub fn unordered(a: &[(usize, u8)], b: &[(usize, u8)]) -> bool {
+    for (x, y) in a.iter().zip(b.iter()) {
+        if x != y {
+            return x.0 == y.0 && x.1 != y.1;
+        }
+    }
+    false
+}
+
 fn fmt_groups<T: std::fmt::Display>(g: &[Vec<T>]) -> String {
     if g.is_empty() {
         return "-".into();
@@ -136,6 +173,21 @@ fn exec_sched_inner(it: &mut Interp<Reg4>, w: usize, args: &[String]) -> Option<
         verif::install(None);
         let dump = render_dump::<Reg4>(&mut b);
         drop(b);
+        if k < total {
+            // C12: the tasks of one phase must be pairwise unordered in the fork/join structure
+            let paths = task_paths(&log);
+            for p in phases_of(&log) {
+                for (i, a) in p.iter().enumerate() {
+                    for b in p.iter().skip(i + 1) {
+                        let pa = paths.iter().find(|x| x.0 == *a).map(|x| x.1.clone()).unwrap_or_default();
+                        let pb = paths.iter().find(|x| x.0 == *b).map(|x| x.1.clone()).unwrap_or_default();
+                        if !unordered(&pa, &pb) {
+                            problems.push(format!("{}:serialised tasks {} and {} of one phase are ordered by the fork/join structure", label, a, b));
+                        }
+                    }
+                }
+            }
+        }
         if k == 0 {
             stages_s = fmt_groups(&parse_stages(&out.stages));
             phases_s = fmt_groups(&phases_of(&log));
